@@ -72,6 +72,7 @@ type Engine struct {
 	noIfConv  bool
 	specDepth int
 	pinPartial bool
+	ruleTried, ruleProved bool
 	ifSites   map[siteKey]*siteStat
 }
 
@@ -809,6 +810,9 @@ func (e *Engine) convert(st *State, v Value, from, to types.Type) Value {
 			if t.w == SortFP {
 				_, tsigned, _ := intWidth(tu)
 				if tsigned {
+					if r := e.ceilHalfRule(st, t, tw); r != nil {
+						return r
+					}
 					return e.ts.app(OpFToS, tw, 0, 0, t)
 				}
 				return e.ts.app(OpFToU, tw, 0, 0, t)
@@ -1476,4 +1480,45 @@ func (e *Engine) zeroOrDummy(t types.Type) Value {
 		return e.ts.False
 	}
 	return e.zero(t)
+}
+
+// ceilHalfRule is a verified rewrite rule (DESIGN §2.5): int(math.Ceil(float64(x)/2.0)) equals
+// (x+1)>>1 for 0 <= x <= 2^52. The rule itself is proved by a solver query the first time it is
+// needed (generated from the same term constructors, so it cannot drift from the encoding); it
+// is applied only when the term built from the repository's SSA matches the left-hand side
+// syntactically and the side condition is implied by the current path condition.
+func (e *Engine) ceilHalfRule(st *State, t *Term, tw int) *Term {
+	if tw != 64 || t.op != OpFCeil {
+		return nil
+	}
+	d := t.args[0]
+	if d.op != OpFDiv || d.args[0].op != OpFFromS || !d.args[1].IsConst() || d.args[1].cval != 0x4000000000000000 { // 2.0
+		return nil
+	}
+	x := d.args[0].args[0]
+	if x.w != 64 {
+		return nil
+	}
+	ts := e.ts
+	if !e.ruleTried {
+		e.ruleTried = true
+		v := ts.Var("rule!x", 64)
+		lhs := ts.app(OpFToS, 64, 0, 0, ts.app(OpFCeil, SortFP, 0, 0, ts.Bin(OpFDiv, ts.app(OpFFromS, SortFP, 0, 0, v), ts.FP(2.0))))
+		rhs := ts.Bin(OpAShr, ts.Bin(OpAdd, v, ts.BV(1, 64)), ts.BV(1, 64))
+		rng := ts.And(ts.Bin(OpSLe, ts.BV(0, 64), v), ts.Bin(OpSLe, v, ts.BV(1<<52, 64)))
+		res, _ := e.sol.Check([]*Term{rng, ts.Not(ts.Eq(lhs, rhs))}, false)
+		e.ruleProved = res == Unsat
+		if e.ruleProved {
+			e.modelsUsed["verified rewrite rule: int(Ceil(float64(x)/2)) = (x+1)>>1 for 0<=x<=2^52 (proved by the solver at start-up)"] = true
+		}
+	}
+	if !e.ruleProved {
+		return nil
+	}
+	side := ts.And(ts.Bin(OpSLe, ts.BV(0, 64), x), ts.Bin(OpSLe, x, ts.BV(1<<52, 64)))
+	if ok, _ := e.probe(st, ts.Not(side)); ok {
+		return nil // side condition not implied by the path condition: keep the FP term
+	}
+	e.res.PathStatus["rewrite-rule-applied"]++
+	return ts.Bin(OpAShr, ts.Bin(OpAdd, x, ts.BV(1, 64)), ts.BV(1, 64))
 }
